@@ -1,10 +1,10 @@
-SPECIFICATION FairSpec
+SPECIFICATION Spec
 CONSTANTS
-  Aborters = {}
-  NT = 2
+  Aborters = {2}
+  NT = 3
   Rounds = 1
   Variant = "code"
 INVARIANT Mutex NoLostHandOver
-PROPERTY EventuallyAll
+
 VIEW view
 CHECK_DEADLOCK FALSE
